@@ -1,12 +1,13 @@
 #!/bin/sh
 # setup_cmd: build the Coq development (full .vo), extract the models, build the OCaml model drivers.
 # Offline; nothing is fetched.  Implementation drivers are built by the checks from /repo's working tree.
-set -e
+# A family that does not build does not stop the others (each check re-makes exactly what it needs and
+# reports a broken proof obligation itself).
 cd "$(dirname "$0")"
 mkdir -p ml/gen build/ml evidence replays
 cd coq
 coq_makefile -f _CoqProject -o Makefile > /dev/null
-timeout 5400 make -j16 2>&1 | tail -5
+timeout 5400 make -k -j16 2>&1 | grep -v "^Closed under\|^COQC\|^COQDEP" | tail -15
 cd ..
 python3 - <<'PY'
 import sys, os
@@ -14,5 +15,9 @@ sys.path.insert(0, "tools")
 import vlib
 for f in sorted(os.listdir("ml")):
     if f.endswith("_driver.ml"):
-        print("model driver:", vlib.build_model(f[:-len("_driver.ml")]))
+        try:
+            print("model driver:", vlib.build_model(f[:-len("_driver.ml")]))
+        except Exception as e:
+            print("model driver %s NOT built: %s" % (f, str(e)[:300]))
 PY
+exit 0
